@@ -120,6 +120,7 @@ class Interp:
         self.called_funcs = set()
         self.no_split = 0
         self.force_attr_split = False
+        self.track_loads = False
         self.watch = None  # optional callable(event dict)
 
     # ------------------------------------------------------------------ exploration
@@ -536,6 +537,10 @@ class Interp:
                            func=frame.func.short if frame.func else None)
                 self._log_attr(obj, target.attr)
                 obj.attrs[target.attr] = v
+                if self.track_loads:
+                    if not hasattr(obj, "written"):
+                        obj.written = set()
+                    obj.written.add(target.attr)
             else:
                 raise CannotEvaluate(f"attribute store on {obj!r}")
         elif isinstance(target, ast.Subscript):
@@ -604,6 +609,10 @@ class Interp:
             if isinstance(obj, Obj) and target.attr in obj.attrs:
                 self._log_attr(obj, target.attr)
                 obj.attrs[target.attr] = v
+                if self.track_loads:
+                    if not hasattr(obj, "written"):
+                        obj.written = set()
+                    obj.written.add(target.attr)
 
     def st_While(self, st, frame):
         n = 0
@@ -850,6 +859,10 @@ class Interp:
         prog = self.program
         if isinstance(base, Obj):
             if name in base.attrs:
+                if self.track_loads and name not in getattr(base, "written", ()):
+                    fr = getattr(self, "cur_frame", None)
+                    self.event("stale_read", obj=base, attr=name, node=node, where=self._where(node),
+                               func=fr.func.short if fr and fr.func else None)
                 return base.attrs[name]
             r = base.cls.lookup(prog, name)
             if r is None:
